@@ -1136,3 +1136,51 @@ pub fn stalechain_main(args: &[String]) -> i32 {
     println!("{}", json!({"attempt": attempts, "inconclusive": true}));
     0
 }
+
+
+/// C20 scenario "failed submit with writes in flight": a record batch goes through io_uring; the
+/// `io_uring_enter` that should wait for the completions fails (not EINTR) while the kernel already
+/// owns the queued write buffers.  Recorded: which buffers were queued, which completions were
+/// reaped, and what happened to each buffer when the batch gave up (freed or leaked).
+pub fn uringfault_main(args: &[String]) -> i32 {
+    use std::io::Write as _;
+    use std::sync::atomic::{AtomicI64, Ordering};
+    let o = Opts::parse(args);
+    let dir = o.req("dir").to_string();
+    std::fs::create_dir_all(&dir).ok();
+    obs::set_cpus(o.num("cpus", 2));
+    crate::util::watchdog::start(60);
+    let nvals: usize = o.num("values", 6);
+    let vlen: usize = o.num("vlen", 3 << 20);
+    let at: i64 = o.num("at", 0);
+    let path = format!("{dir}/uring_{}.feox", std::process::id());
+    let _ = std::fs::remove_file(&path);
+    let store = FeoxStore::builder().device_path(path.clone()).file_size(((nvals * (vlen / 4096 + 2) + 64) * 4096) as u64)
+        .enable_caching(false).enable_ttl(false).hash_bits(4).build().expect("build");
+    static SEEN: AtomicI64 = AtomicI64::new(0);
+    SEEN.store(0, Ordering::SeqCst);
+    feoxdb::verif::set_fault_fn(Some(Box::new(move |_idx, kind, _sector, _len| {
+        if kind == "uring_enter" && SEEN.fetch_add(1, Ordering::SeqCst) == at { 1 } else { 0 }
+    })));
+    obs::install();
+    for i in 0..nvals {
+        store.insert(format!("big{i}").as_bytes(), &vec![b'a' + i as u8; vlen]).unwrap();
+    }
+    let res = store.flush();
+    feoxdb::verif::set_fault_fn(None);
+    obs::uninstall();
+    let raw = obs::take();
+    let mut out = std::io::BufWriter::new(std::fs::File::create(o.req("out")).expect("out"));
+    let mut n = 0;
+    for e in &raw {
+        let kind = match e.kind { "ubq" => "q", "ubu" => "u", "ubc" => "c", "ubd" => "d", _ => continue };
+        writeln!(out, "{}", json!({"e": kind, "inst": (e.a % 1_000_000_007) as u64, "i": e.b, "f": e.c})).unwrap();
+        n += 1;
+    }
+    out.flush().unwrap();
+    let enters = SEEN.load(Ordering::SeqCst);
+    println!("{}", json!({"events": n, "enter_calls": enters, "flush": match &res { Ok(()) => "Ok".to_string(), Err(e) => crate::util::err_name(e) }}));
+    std::mem::forget(store);
+    let _ = std::fs::remove_file(&path);
+    0
+}
